@@ -11,6 +11,8 @@ use crate::spec::*;
 #[derive(Clone, Debug)]
 pub struct Profile {
     pub zero: bool,
+    /// share of runs (percent) with zero quantities when `zero` is on
+    pub zero_pct: u64,
     pub restores: bool,
     pub reads: bool,
     pub probes: bool,
@@ -31,6 +33,7 @@ impl Default for Profile {
     fn default() -> Self {
         Profile {
             zero: false,
+            zero_pct: 75,
             restores: true,
             reads: true,
             probes: false,
@@ -108,7 +111,7 @@ impl Gen {
                 }
             }
         };
-        let zero = p.zero && k.chance(3, 4);
+        let zero = p.zero && k.below(100) < p.zero_pct;
         let ts_policy = if p.ts_stress {
             *k.pick(&[1u8, 2, 2, 3, 4, 4, 5, 0])
         } else {
@@ -120,7 +123,8 @@ impl Gen {
             _ => *k.pick(&[1u64, 7, 100, 100, 10_000, 1 << 32]),
         };
         let offprice = p.offprice && k.chance(1, 3);
-        let cap = ((u64::MAX / 2) / price.max(1)) as u128;
+        // price * quantity sums must fit in 64 bits, also for the off-price orders (price + 1..=5)
+        let cap = ((u64::MAX / 2) / (price.max(1) + 8)) as u128;
         let cap = cap.min(1u128 << 62);
         Gen {
             k,
@@ -534,7 +538,7 @@ pub fn gen_history(seed: u64, p: &Profile) -> History {
                 let lie = if g.f.chance(1, 2) {
                     0
                 } else {
-                    1 + g.f.below(3) as u8
+                    1 + g.f.below(crate::seq::N_LIES as u64) as u8
                 };
                 ops.push(Op::Restore {
                     path: g.f.below(N_RESTORE_PATHS as u64) as u8,
